@@ -214,7 +214,7 @@ Definition goal (obs : list (list ocall)) (x : st) : bool :=
 (* the search gives up (answer: not admissible) after [budget] distinct model states; on the
    unchanged code the first descent almost always succeeds (threads are tried in order of the
    observed return stamps), so the budget only bounds the cost of refuting a bad history *)
-Definition budget : nat := 3 * 2000.
+Definition budget : nat := 2 * 1500.
 
 Fixpoint dfs (obs : list (list ocall)) (fuel : nat) (x : st) (n : nat) (vis : list (list N)) : bool * nat * list (list N) :=
   match fuel with
